@@ -654,6 +654,35 @@ def main():
             r["orig"] = [public_attrs(o) for o in objs]
             res["results"].append(r)
 
+    elif op == "serialize":
+        # octets of each message under each serializer configuration (real Serializer.serialize)
+        for case in inp["cases"]:
+            obj = build(case["cls"], case["attrs"])
+            r = {"orig": public_attrs(obj), "cls": case["cls"]}
+            for sn in case["via"]:
+                for batched in (False, True):
+                    r[sn + (".batched" if batched else "")] = SER[sn](batched=batched).serialize(obj)[0].hex()
+            res["results"].append(r)
+
+    elif op == "history":
+        # call sequences on LONG-LIVED serializer objects: two objects per (serializer, batched); every step is
+        # one Serializer.unserialize(octets) call; nothing is reset between steps
+        objs = {}
+        for hist in inp["cases"]:
+            outs = []
+            for cfg, inst, hx in hist["steps"]:
+                sn, batched = cfg.split(".")[0], cfg.endswith(".batched")
+                key = (hist.get("fresh", 0), cfg, inst) if hist.get("fresh") else (0, cfg, inst)
+                if key not in objs:
+                    objs[key] = SER[sn](batched=batched)
+                ser = objs[key]
+                data = bytes.fromhex(hx)
+                def go():
+                    ms = ser.unserialize(data, ser._serializer.BINARY)
+                    return {"k": "ok", "n": len(ms), "msgs": [parsed(m, reparse=False) for m in ms]}
+                outs.append(outcome(go))
+            res["results"].append(outs)
+
     elif op == "octets":
         class OneRaw:      # object serializer stub handing one already decoded structure to Serializer.unserialize
             NAME, BINARY = "stub", True
